@@ -56,6 +56,9 @@ def MAX_TYPE_NESTING_DEPTH : Nat := 128
 inductive CtErr where
   | kind (k : String)
   | panic (site : String)
+  /-- An artefact of the model only: a termination fuel ran out / an arm that the code cannot reach.
+  `Proofs/CustomFuel.lean` proves it is never produced. -/
+  | fuel (what : String)
   deriving Repr
 
 abbrev CtRes (α : Type) := Except CtErr α
@@ -203,7 +206,7 @@ abbrev CtParse := Bool → Str → CtRes (Ty × Str)
 first error) and the parser position afterwards.  `n` bounds the number of items (each successful item consumes at
 least one scalar, so `s.length + 1` is enough; exhaustion is reported as an `Err` item and never happens). -/
 def paramsLoop (parse : CtParse) (frozen : Bool) : Nat → Str → List (CtRes Ty) × Str
-  | 0, s => ([.error (.kind "loopfuel")], s)
+  | 0, s => ([.error (.fuel "loop")], s)
   | n + 1, s =>
     let s := skipBlankComma s
     if s.isEmpty then ([.error (.kind "eof")], s)
@@ -241,7 +244,7 @@ def collectOk : List (CtRes Ty) → CtRes (List Ty)
 
 /-- The field loop of `get_udt_parameters`. -/
 def udtFields (parse : CtParse) (frozen : Bool) : Nat → Str → CtRes (List (Bytes × Ty) × Str)
-  | 0, _ => .error (.kind "loopfuel")
+  | 0, _ => .error (.fuel "loop")
   | n + 1, s =>
     let s := skipBlankComma s
     if s.isEmpty then .error (.kind "eof")
@@ -267,7 +270,7 @@ def oneParam (parse : CtParse) (frozen : Bool) (s : Str) : CtRes (Ty × Str) :=
   match nTypeParameters parse frozen 1 s with
   | .ok ([.ok t], s') => .ok (t, s')
   | .ok ([.error e], _) => .error e
-  | .ok _ => .error (.kind "impossible")
+  | .ok _ => .error (.fuel "impossible")
   | .error e => .error e
 
 /-- `get_complex_abstract_type` (`s` starts with `(`). -/
@@ -286,7 +289,7 @@ def complexType (parse : CtParse) (frozen : Bool) (name : Bytes) (s : Str) : CtR
     | .ok ([.ok k, .ok v], s') => .ok (.map frozen k v, s')
     | .ok ([.error e, _], _) => .error e
     | .ok ([.ok _, .error e], _) => .error e
-    | .ok _ => .error (.kind "impossible")
+    | .ok _ => .error (.fuel "impossible")
     | .error e => .error e
   else if n == asciiBytes "TupleType" then
     match typeParameters parse frozen s with
@@ -376,6 +379,7 @@ def deserType : Nat → M Ty
       | .ok t => do noteDepth (129 - fuel + customDepthBound); pure t
       | .error (.kind e) => fail ("type.ct." ++ e)
       | .error (.panic site) => panicAt site
+      | .error (.fuel w) => fail ("type.ct.MODEL-FUEL." ++ w)
     | 0x0020 => do let t ← deserType fuel; pure (.list false t)
     | 0x0021 => do let k ← deserType fuel; let v ← deserType fuel; pure (.map false k v)
     | 0x0022 => do let t ← deserType fuel; pure (.set false t)
